@@ -61,7 +61,7 @@ func PanicSites(r *core.Run, sc *Scope, bce *BCE, table string) {
 					nProved++
 					return true
 				}
-				o := r.Add("R-PANIC/P2", siteKey(f, "index "+core.ExprStr(x)), x.Pos(), "index "+core.ExprStr(x))
+				o := r.Add("R-PANIC/P2", siteKey(f, "index "+core.NormExpr(info, x)), x.Pos(), "index "+core.ExprStr(x))
 				if sortIface {
 					o.Auto("sort.Interface method: sort calls Less/Swap only with 0 <= i,j < Len()")
 					return true
@@ -84,7 +84,7 @@ func PanicSites(r *core.Run, sc *Scope, bce *BCE, table string) {
 					nProved++
 					return true
 				}
-				o := r.Add("R-PANIC/P2", siteKey(f, "slice "+core.ExprStr(x)), x.Pos(), "slice "+core.ExprStr(x))
+				o := r.Add("R-PANIC/P2", siteKey(f, "slice "+core.NormExpr(info, x)), x.Pos(), "slice "+core.ExprStr(x))
 				if why, ok := sliceSafe(info, f, x); ok {
 					o.Auto("%s", why)
 				} else if !r.Table(table, o) {
@@ -97,7 +97,7 @@ func PanicSites(r *core.Run, sc *Scope, bce *BCE, table string) {
 				if assertIsCommaOk(f, x) {
 					return true
 				}
-				o := r.Add("R-PANIC/P3", siteKey(f, "assert "+core.ExprStr(x)), x.Pos(), "type assertion "+core.ExprStr(x))
+				o := r.Add("R-PANIC/P3", siteKey(f, "assert "+core.NormExpr(info, x)), x.Pos(), "type assertion "+core.ExprStr(x))
 				if c, ok := core.Unparen(x.X).(*ast.CallExpr); ok && core.CalleeName(info, c) == fnGetExtension {
 					if obj := core.UsedObj(info, c.Args[1]); obj != nil {
 						if ei, err := ResolveExt(r.P, obj); err == nil && types.Identical(info.TypeOf(x.Type), ei.ExtType) {
@@ -125,7 +125,7 @@ func PanicSites(r *core.Run, sc *Scope, bce *BCE, table string) {
 				if tv, ok := info.Types[x.Y]; ok && tv.Value != nil {
 					return true
 				}
-				o := r.Add("R-PANIC/P5", siteKey(f, "div "+core.ExprStr(x)), x.Pos(), "integer division "+core.ExprStr(x))
+				o := r.Add("R-PANIC/P5", siteKey(f, "div "+core.NormExpr(info, x)), x.Pos(), "integer division "+core.ExprStr(x))
 				facts := FactsAt(info, f.Body, x)
 				ys := core.ExprStr(x.Y)
 				if facts.False[ys+" == 0"] || facts.True[ys+" != 0"] || facts.True[ys+" > 0"] {
